@@ -28,6 +28,9 @@ _W = {}
 
 
 def _init_worker(pid):
+    import warnings
+
+    warnings.simplefilter("ignore")
     engine.assert_repo()
     _W["mod"] = load_prop(pid)
     import crosshair.core_and_libs  # noqa: F401
@@ -110,6 +113,9 @@ def _work(job):
 # ------------------------------------------------------------------ replay
 def replay_file(path):
     """Run a recorded counterexample against the real code, no tracer. Prints JSON."""
+    import warnings
+
+    warnings.simplefilter("ignore")
     engine.assert_repo()
     with open(path) as f:
         rec = json.load(f)
